@@ -79,6 +79,28 @@ func TestReplay(t *testing.T) {
 	}
 	rec := vstat.New(rf.Property, "replay")
 	defer rec.Flush(true)
+	if rf.Property == "C05" && rf.Part == "stress" {
+		var osc OnceStress
+		omsg := ""
+		if err := json.Unmarshal(rf.Scenario, &osc); err != nil || osc.Hot < 1 {
+			omsg = fmt.Sprintf("bad scenario: %v", err)
+		} else {
+			for i := 0; i < 20 && omsg == ""; i++ { // the schedule is not reproducible: try a few times
+				if _, err := runOnceStress(t, &osc); err != nil {
+					omsg = err.Error()
+				}
+			}
+		}
+		if omsg != "" {
+			rec.AddViolation(json.RawMessage(rf.Scenario), rf.Kind, rf.Class, "%s", omsg)
+			fmt.Println("REPLAY-FAIL:", omsg)
+			t.Fail()
+			return
+		}
+		rec.Case(json.RawMessage(rf.Scenario), false, "replayed")
+		fmt.Println("REPLAY-OK")
+		return
+	}
 	if rf.Kind == "stress" {
 		var ssc StressScenario
 		smsg := ""
@@ -138,6 +160,34 @@ func TestC04Stress(t *testing.T) {
 			labels = append(labels, "multiple-writers")
 		}
 		rec.Case(sc, overlap && len(sc.Subs) > 1, labels...)
+		if err != nil {
+			rec.AddViolation(sc, "stress", "oracle", "%v", err)
+			t.Fail()
+			break
+		}
+	}
+	rec.Flush(true)
+}
+
+var onceStressN = flag.Int("c05.stress", 40, "number of free-running ONCE/POLL workloads in TestC05Stress")
+
+// TestC05Stress: ONCE calls and POLL rounds racing writers on the real scheduler (inside a synctest bubble).
+func TestC05Stress(t *testing.T) {
+	if !vstat.Enabled("C05") {
+		t.Skip()
+	}
+	rec := vstat.New("C05", "stress")
+	rec.SetRequested(*onceStressN)
+	rec.Note("free-running part: workloads are a function of the seed, schedules are the real scheduler's and cannot be replayed; a replay re-runs the workload")
+	for i := 0; i < *onceStressN; i++ {
+		sc := genOnceStress(*vstat.Seed*1_000_003 + int64(i))
+		rec.Current(sc)
+		rounds, err := runOnceStress(t, sc)
+		labels := []string{"free-running", "mode:" + sc.Modes, "path:" + sc.Path}
+		if sc.GlogV > 0 {
+			labels = append(labels, "glog-verbosity>0")
+		}
+		rec.Case(sc, rounds >= 20 && sc.Hot > 1, labels...)
 		if err != nil {
 			rec.AddViolation(sc, "stress", "oracle", "%v", err)
 			t.Fail()
